@@ -36,7 +36,7 @@ type c19MWCase struct {
 
 func c19MWGen(t *rapid.T) c19MWCase {
 	c := c19MWCase{
-		Header: c19x.GenPlan(t, []string{"alg", "typ", "kid", "jwk", "jku", "x5c", "x5u", "crit"}),
+		Header: c19OptHeaderPlan(t, []string{"alg", "typ", "kid", "jwk", "jku", "x5c", "x5u", "crit"}),
 		Claims: c19x.GenPlan(t, []string{"iss", "sub", "aud", "exp", "nbf", "iat", "jti"}),
 		Sig:    rapid.SampledFrom(c19x.SigModes).Draw(t, "sig"),
 		Ser:    rapid.SampledFrom([]string{"compact", "compact", "compact", "compact", "compact", "flattened", "general1", "general2"}).Draw(t, "ser"),
@@ -107,4 +107,13 @@ func TestVerif_C19_TokenV2(t *testing.T) {
 
 func TestVerifReplay_C19_TokenV2(t *testing.T) {
 	h.Replay(t, "C19", "TestVerif_C19_TokenV2", c19MWRun, h.PanicIsViolation(), h.Deadline(10*time.Second))
+}
+
+// c19OptHeaderPlan mutates the JOSE header in one case out of three only: most header mutations die in the JOSE library,
+// the claims are what nuts-node code interprets.
+func c19OptHeaderPlan(t *rapid.T, keys []string) c19x.Plan {
+	if rapid.IntRange(0, 2).Draw(t, "header.mutated") != 0 {
+		return c19x.Plan{}
+	}
+	return c19x.GenPlan(t, keys)
 }
